@@ -3,20 +3,25 @@
 #define LL_ARENA_T uint8_t
 #include "harness.h"
 struct opts { uint32_t sev; uint8_t inc; uint32_t checks; struct sstr defines; uint8_t cfg, force; int maxcfg, level; uint8_t hasAddon; struct sstr aname, aargs, premium, product, undefs;
-              int stdc, stdcpp, lang, platform; struct sstr libs; };
+              int stdc, stdcpp, lang, platform; uint32_t szInt, szLong, szPtr; uint8_t psign; struct sstr libs; };
 static void run(struct opts* o, uint8_t* out, uint32_t* len) {
   memset(out, 0, 160);
   k_toolinfo(o->sev, o->inc, o->checks, (uint8_t*)&o->defines, o->cfg, o->force, o->maxcfg, o->level, o->hasAddon, (uint8_t*)&o->aname, (uint8_t*)&o->aargs, (uint8_t*)&o->premium,
-             (uint8_t*)&o->product, (uint8_t*)&o->undefs, o->stdc, o->stdcpp, o->lang, o->platform, (uint8_t*)&o->libs, out, (uint8_t*)len);
+             (uint8_t*)&o->product, (uint8_t*)&o->undefs, o->stdc, o->stdcpp, o->lang, o->platform, o->szInt, o->szLong, o->szPtr, o->psign, (uint8_t*)&o->libs, out, (uint8_t*)len);
 }
 static void fix(struct sstr* s) { s->p = s->u.buf; }
+/* Platform::Type: 0 Unspecified, 1 Native, 2 Win32A, 3 Win32W, 4 Win64, 5 Unix32, 6 Unix64, 7 File.  Built-in platforms fix the sizes; a platform FILE may declare any */
+static void platform_sizes(struct opts* o, uint32_t a, uint32_t b, uint32_t c, uint8_t s) {
+  if (o->platform == 7) { o->szInt = 1 + (a & 7); o->szLong = 1 + (b & 7); o->szPtr = 1 + (c & 7); o->psign = (s & 1) ? 'u' : 's'; }
+  else { o->szInt = 4; o->szLong = (o->platform == 6 || o->platform == 1) ? 8 : 4; o->szPtr = (o->platform == 4 || o->platform == 6 || o->platform == 1) ? 8 : 4; o->psign = (o->platform >= 2 && o->platform <= 4) ? 's' : 0; }
+}
 static int streq(struct sstr* a, struct sstr* b) { if (a->n != b->n) return 0; for (unsigned i = 0; i < 1; i++) if (i < a->n && a->u.buf[i] != b->u.buf[i]) return 0; return 1; }
 enum { SEV_WARNING = 2, SEV_STYLE = 3, SEV_PERFORMANCE = 4, SEV_PORTABILITY = 5, SEV_INFORMATION = 6 };
 void harness(void) {
   struct opts A, B; uint8_t outA[160], outB[160]; uint32_t lenA = 0, lenB = 0;
   A.sev = in_u32(); A.inc = in_range(0, 1); A.checks = in_u32(); sstr_sym(&A.defines, 0, 1); A.cfg = in_range(0, 1); A.force = in_range(0, 1); A.maxcfg = (int)in_u32(); A.level = (int)in_range(0, 3);
   A.hasAddon = 1; sstr_sym(&A.aname, 0, 1); sstr_sym(&A.aargs, 0, 1); sstr_sym(&A.premium, 0, 1); sstr_sym(&A.product, 0, 1); sstr_sym(&A.undefs, 0, 1);
-  A.stdc = (int)in_range(0, 4); A.stdcpp = (int)in_range(0, 7); A.lang = (int)in_range(0, 2); A.platform = (int)in_range(0, 7); sstr_sym(&A.libs, 0, 1);
+  A.stdc = (int)in_range(0, 4); A.stdcpp = (int)in_range(0, 7); A.lang = (int)in_range(0, 2); A.platform = (int)in_range(0, 7); platform_sizes(&A, in_u32(), in_u32(), in_u32(), in_u8()); sstr_sym(&A.libs, 0, 1);
   B = A; fix(&B.defines); fix(&B.aname); fix(&B.aargs); fix(&B.premium); fix(&B.product); fix(&B.undefs); fix(&B.libs);
   struct sstr alt; sstr_sym(&alt, 0, 1); uint32_t altv = in_u32();
   switch (FIELD) {
@@ -34,7 +39,8 @@ void harness(void) {
     case 15: B.undefs = alt; fix(&B.undefs); __CPROVER_assume(!streq(&A.undefs, &B.undefs)); break;
     case 16: B.stdc = (int)(altv % 5); B.stdcpp = (int)((altv >> 8) % 8); __CPROVER_assume(B.stdc != A.stdc || B.stdcpp != A.stdcpp); break;
     case 17: B.lang = (int)(altv % 3); __CPROVER_assume(B.lang != A.lang); break;
-    case 18: B.platform = (int)(altv % 8); __CPROVER_assume(B.platform != A.platform); break;
+    case 18: B.platform = (int)(altv % 8); platform_sizes(&B, altv >> 4, altv >> 8, altv >> 12, (uint8_t)(altv >> 16));
+             __CPROVER_assume(B.platform != A.platform || B.szInt != A.szInt || B.szLong != A.szLong || B.szPtr != A.szPtr || B.psign != A.psign); break;
     case 19: B.libs = alt; fix(&B.libs); __CPROVER_assume(!streq(&A.libs, &B.libs)); break;
     default: B.checks = A.checks ^ 1u; break;
   }
